@@ -535,7 +535,8 @@ def rule_i(ctx):
     n += 1
     for c in A.calls_in(f.node):
       d = A.call_name(c) or ''
-      if d.split('.')[-1] in THREAD_DISPATCH:
+      last = c.func.attr if isinstance(c.func, ast.Attribute) else (c.func.id if isinstance(c.func, ast.Name) else '')
+      if d.split('.')[-1] in THREAD_DISPATCH or last in THREAD_DISPATCH:
         bad.append(f'{f.qualname}: `{A.unparse(c, 70)}` (line {c.lineno})')
   ctx.ob('C19.i', 'pyglove.core.coding.execution#thread-dispatch', not bad,
          'evaluation stays on the calling thread (or in the process sandbox): the thread-local permission scope is '
